@@ -9,6 +9,21 @@ pub assume_specification [char::to_ascii_uppercase] (c: &char) -> (r: char)
 /// spelling `to_ascii_lowercase` fails the postcondition instead of leaving the verifier's vocabulary)
 pub assume_specification [char::to_ascii_lowercase] (c: &char) -> (r: char)
     ensures r == lower_char(*c);
+/// ASSUMED (A2): the ASCII character-class predicates of `char` (not used by the code as it stands; given their std
+/// semantics so that a condition added to the conversion fails the postcondition instead of leaving the verifier's
+/// vocabulary -- seed C12-17)
+pub assume_specification [char::is_ascii_alphabetic] (c: &char) -> (r: bool)
+    ensures r == (('a' <= *c && *c <= 'z') || ('A' <= *c && *c <= 'Z'));
+pub assume_specification [char::is_ascii_lowercase] (c: &char) -> (r: bool)
+    ensures r == ('a' <= *c && *c <= 'z');
+pub assume_specification [char::is_ascii_uppercase] (c: &char) -> (r: bool)
+    ensures r == ('A' <= *c && *c <= 'Z');
+pub assume_specification [char::is_ascii_digit] (c: &char) -> (r: bool)
+    ensures r == ('0' <= *c && *c <= '9');
+pub assume_specification [char::is_ascii_alphanumeric] (c: &char) -> (r: bool)
+    ensures r == (('a' <= *c && *c <= 'z') || ('A' <= *c && *c <= 'Z') || ('0' <= *c && *c <= '9'));
+pub assume_specification [char::is_ascii] (c: &char) -> (r: bool)
+    ensures r == ((*c as u32) < 0x80);
 impl CompactString {
     /// ASSUMED (A2): compact_str::CompactString::new(s) holds exactly the characters of `s`
     #[verifier::external_body]
